@@ -23,7 +23,7 @@ RULE = (
     "for each of the 34 contracted filters: left value x 0-2 arguments from typed pools (strings over a small alphabet, ints incl. negative "
     "and huge, floats with <= 6 significant digits, numeric strings, lists of mixed values, lists of hashes, dicts, nil, undefined); unary and "
     "binary combinations exhaustive, ternary sampled; called directly and through {{ l | f: a, b }} renders of an environment whose registry "
-    "holds the contracted callables. Inputs on which the filter raises a Liquid error, and cells the documentation leaves open, are not judged. "
+    "holds the contracted callables. Plus the split/join round trip rendered through both real filters ({{ s | split: sep | join: sep }} and three equivalent spellings) over 28 strings x 15 separators. Inputs on which the filter raises a Liquid error, and cells the documentation leaves open, are not judged. "
     "Non-trivial = a call whose contract returned a verdict (not 'unspecified'), distinct by (filter, arguments)."
 )
 REQUIRED = [
@@ -138,7 +138,30 @@ def sig_of(name: str, args: list) -> str:
     return f"{name}(" + ",".join(cls(a) for a in args) + ")"
 
 
+def judge_roundtrip(ctx: core.Ctx, case: dict[str, Any]) -> None:
+    """split followed by the join *filter* with the same separator restores a non-empty string (rendered, so both real filters run)."""
+    e = env()
+    s0, sep = case["s"], case["sep"]
+    src = case["source"]
+    o = drv.parse_and_render(e, src, {"s": s0, "sep": sep}, use_async=case.get("async", False))
+    if not o.ok:
+        ctx.count("liquid_error_not_judged" if o.is_liquid_error else "non_liquid_error_forwarded_to_C02")
+        return
+    if s0 == "" or sep == " " or s0 == sep:
+        ctx.unspecified("roundtrip-documented-exception")
+        return
+    ctx.count("judged:roundtrip")
+    if o.value != s0:
+        ctx.evaluations += 1
+        ctx.violation("roundtrip:split-join", f"{src!r} with s={s0!r} sep={sep!r} rendered {o.value!r}, expected the input back")
+        return
+    ctx.ok(("roundtrip", src, s0, sep), nontrivial=True)
+
+
 def judge(ctx: core.Ctx, case: dict[str, Any]) -> None:
+    if case.get("kind") == "roundtrip":
+        judge_roundtrip(ctx, case)
+        return
     e = env()
     name = case["filter"]
     args = [realise(a, e) for a in case["args"]]
@@ -204,7 +227,7 @@ def finish(ctx: core.Ctx) -> None:
         ctx.inconclusive("contracts never judged (every call unspecified or raising): " + ",".join(missing))
 
 
-MIN_COUNTERS = {"contract_evaluations_total": 2000}
+MIN_COUNTERS = {"contract_evaluations_total": 2000, "judged:roundtrip": 200}
 
 # ------------------------------------------------------------------------ pools
 
@@ -263,9 +286,23 @@ def enc_arg(a: Any) -> Any:
     return a if (isinstance(a, dict) and a.get("$undefined")) else V.enc(a)
 
 
+RT_SOURCES = [
+    "{{ s | split: sep | join: sep }}",
+    "{% assign parts = s | split: sep %}{{ parts | join: sep }}",
+    "{% assign parts = s | split: sep %}{% for p in parts %}{{ p }}{% unless forloop.last %}{{ sep }}{% endunless %}{% endfor %}",
+    "{% capture c %}{{ s | split: sep | join: sep }}{% endcapture %}{{ c }}",
+]
+RT_STRS = STRS + ["a,b", "aXbX", "XaXXb", "a, b, c", "abcabc", "é,ß", "a\nb\nc", "--a--b--", "a.b", "a|b", "1,2", "  ", "a  b"]
+RT_SEPS = [",", " ", "", "b", ", ", "ab", "X", "XX", "\n", "--", ".", "|", "  ", "a", "é"]
+
+
 def cases(ctx: core.Ctx):
     rng = ctx.rng("cases")
     idx = 0
+    for s0, sep, src in itertools.product(RT_STRS, RT_SEPS, RT_SOURCES):
+        idx += 1
+        if idx % ctx.nshards == ctx.shard:
+            yield {"kind": "roundtrip", "s": s0, "sep": sep, "source": src, "async": idx % 7 == 0}
     for name, shapes in SHAPES.items():
         for shape in shapes:
             pools = [pool_for(k) for k in shape]
